@@ -45,7 +45,7 @@ WhyEnd ==
 
 WhyExit ==
   IF phase # "finished" THEN "exit-before-the-phases-finished"
-  ELSE IF E.unable # (ret = orig) THEN "report-contradicts-the-result"
+  ELSE IF ~E.hidden /\ E.unable # (ret = orig) THEN "report-contradicts-the-result"
   ELSE IF E.file # file THEN "file-at-exit-is-not-the-last-written-input"
   ELSE "ok"
 
